@@ -50,8 +50,9 @@ Placement(p, n) ==
   CASE p = 1 -> [i \in 1..n |-> Bd(i)] \o <<It("count"), It("info")>>                          \* as in real files
     [] p = 2 -> <<It("count"), It("info"), Gap(<<1, 2, 3>>)>>
                 \o FlattenSeq([i \in 1..n |-> <<Bd(n + 1 - i), Gap(<<255, 0>>)>>])              \* bodies reversed, gaps
-    [] OTHER -> (IF n >= 1 THEN <<Bd(n)>> ELSE <<>>) \o <<It("info"), Gap(<<0, 0, 0, 0, 9>>)>>
+    [] p = 3 -> (IF n >= 1 THEN <<Bd(n)>> ELSE <<>>) \o <<It("info"), Gap(<<0, 0, 0, 0, 9>>)>>
                 \o [i \in 1..(n - 1) |-> Bd(i)] \o <<It("count")>>                              \* table between bodies
+    [] OTHER -> <<It("info"), It("count")>> \o [i \in 1..n |-> Bd(i)]                          \* table first
 \* lead gaps for the un-padded variant: make every following body unaligned; the second one has a zero
 \* first BYTE but a non-zero first WORD (the rule speaks of the word)
 Lead == <<Gap(<<9>>)>>
@@ -59,7 +60,7 @@ LeadOf(ld) == CASE ld = 0 -> <<>> [] ld = 1 -> Lead [] OTHER -> <<Gap(<<0, 0, 0,
 PadLead == { <<TRUE, 0>>, <<FALSE, 0>>, <<FALSE, 1>>, <<FALSE, 2>> }
 Lays(n) ==
   { [padded |-> pl[1], items |-> LeadOf(pl[2]) \o Placement(p, n), recs |-> r, extra |-> ex] :
-      pl \in PadLead, p \in 1..3, r \in SetToSeqs(1..n), ex \in BOOLEAN }
+      pl \in PadLead, p \in 1..4, r \in SetToSeqs(1..n), ex \in BOOLEAN }
 \* conforming: padded starts with the zero header; un-padded has a non-zero first word
 InScope(n, lay) == n = 3 => (lay.extra <=> lay.items[Len(lay.items)].k = "info")
 ConformingLays(v) ==
@@ -67,6 +68,12 @@ ConformingLays(v) ==
 ErrLays(n) ==
   { [padded |-> pd, items |-> (IF pd THEN <<>> ELSE Lead) \o Placement(p, n), recs |-> [i \in 1..n |-> n + 1 - i], extra |-> FALSE] :
       pd \in BOOLEAN, p \in {1, 2} }
+\* ranges over the Count word / over numeric fields of the table (conforming: ordinary bytes of the region);
+\* also on the table-first placement without a lead gap
+OverLays(n) ==
+  { [padded |-> pd, items |-> (IF pd \/ p = 4 THEN <<>> ELSE Lead) \o Placement(p, n), recs |-> [i \in 1..n |-> n + 1 - i], extra |-> FALSE] :
+      pd \in BOOLEAN, p \in {1, 2, 4} }
+OverErrs(n) == { [kind |-> k, j |-> j] : k \in {"overcount", "overfields"}, j \in 1..n }
 Errs(n) == { [kind |-> k, j |-> 0] : k \in {"nocount", "noinfo"} }
            \cup { [kind |-> k, j |-> j] : k \in {"noname", "end", "start"}, j \in 1..n }
 (* out-of-range offsets and sizes across the whole u32 range (4 bytes, most significant first):
@@ -118,11 +125,15 @@ PickValue == c.k = "root" /\ c' \in { [k |-> "val", v |-> v] : v \in UNION { Val
 PickLayout == c.k = "val" /\ c' \in { [k |-> "lay", v |-> c.v, lay |-> l, err |-> NoErr] : l \in ConformingLays(c.v) }
 PickError == /\ c.k = "val" /\ \A i \in 1..Len(c.v) : Len(BodyOf(c.v[i])) \in ErrLens
              /\ c' \in { [k |-> "lay", v |-> c.v, lay |-> l, err |-> e] : l \in ErrLays(Len(c.v)), e \in Errs(Len(c.v)) }
-PickWordError == /\ c.k = "val" /\ \A i \in 1..Len(c.v) : Len(BodyOf(c.v[i])) \in WordLens
+\* quick: three-file values only with all bodies of length 5 (every record position is still planted)
+WordScope(v) == \A i \in 1..Len(v) : Len(BodyOf(v[i])) \in (IF Quick /\ Len(v) = 3 THEN {5} ELSE WordLens)
+PickWordError == /\ c.k = "val" /\ WordScope(c.v)
                  /\ c' \in { [k |-> "lay", v |-> c.v, lay |-> l, err |-> e] : l \in ErrLays(Len(c.v)), e \in WordErrs(Len(c.v)) \cup NamePtrErrs(Len(c.v)) }
+PickOverlap == /\ c.k = "val" /\ WordScope(c.v)
+               /\ c' \in { [k |-> "lay", v |-> c.v, lay |-> l, err |-> e] : l \in OverLays(Len(c.v)), e \in OverErrs(Len(c.v)) }
 PickSeed == c.k = "root" /\ c' \in { [k |-> "rnd", seed |-> s, step |-> 0] : s \in RndSeeds }
 StepSeed == c.k = "rnd" /\ c.step < RndSteps /\ c' = [k |-> "rnd", seed |-> Lcg(c.seed), step |-> c.step + 1]
-Next == PickValue \/ PickLayout \/ PickError \/ PickWordError \/ PickSeed \/ StepSeed
+Next == PickValue \/ PickLayout \/ PickError \/ PickWordError \/ PickOverlap \/ PickSeed \/ StepSeed
 Spec == Init /\ [][Next]_c
 
 ExpectedErr(kind) == CASE kind = "nocount" -> "NoCount" [] kind = "noinfo" -> "NoInfo"
@@ -133,7 +144,14 @@ LayoutLaw(v, lay, err) ==
   /\ BF!ValidContent(ct)
   /\ LET p == BF!RefParse(Image(ct), "le") IN p.ok /\ BF!SameContent(ct, p.c)
   /\ Len(v) <= 2 => LET p == BF!RefParse(AltImage(ct), "le") IN p.ok /\ BF!SameContent(ct, p.c)
-  /\ IF err.kind = "none"
+  /\ IF err.kind \in {"overcount", "overfields"}
+     THEN LET ex == Extract(ct)  ad == Addrs(v, lay) IN
+          /\ Conforms(ct) /\ Len(ex.files) = Len(v)
+          /\ Allowed(ct, [ok |-> TRUE, files |-> ex.files]) /\ ~Allowed(ct, [ok |-> TRUE, files |-> v])
+          /\ ex.files[err.j][2] = (IF err.kind = "overcount" THEN U32(Len(v), "le")
+                                   ELSE SubSeq(ct.data, ad.info + 5, ad.info + 16))
+          /\ \A j \in 1..Len(v) : j # err.j => ex.files[j] = v[lay.recs[j]]
+     ELSE IF err.kind = "none"
      THEN /\ Conforms(ct)
           /\ Len(Extract(ct).files) = Len(v) /\ AsSet(Extract(ct).files) = AsSet(v)
           /\ (lay.padded <=> FirstWordZero(ct))
